@@ -154,7 +154,13 @@ func (e *vmEnvironment) newVMConfig() *vm.Config {
 	conf.ValidateAccountCapabilitiesGetHandler = newValidateAccountCapabilitiesGetHandler(&e.Interface)
 	conf.ValidateAccountCapabilitiesPublishHandler = newValidateAccountCapabilitiesPublishHandler(&e.Interface)
 	conf.ElaborationResolver = e.resolveElaboration
-	conf.StackDepthLimit = defaultStackDepthLimit
+
+	// Use the configured stack depth limit, just like the interpreter environment.
+	// If no limit is configured, use the default limit.
+	conf.StackDepthLimit = e.config.StackDepthLimit
+	if conf.StackDepthLimit == 0 {
+		conf.StackDepthLimit = defaultStackDepthLimit
+	}
 
 	if interpreter.TracingEnabled {
 		conf.Tracer = interpreter.CallbackTracer(newOnRecordTraceHandler(&e.Interface))
